@@ -41,12 +41,13 @@ func (t *T0x0102) Parse(jtMsg *jt808.JTMessage) error {
 			return protocol.ErrBodyLengthInconsistency
 		}
 		t.AuthCodeLen = body[0]
-		if len(body) < 1+int(t.AuthCodeLen)+15+20 {
+		n := int(t.AuthCodeLen) // 用int计算下标 避免uint8溢出
+		if len(body) < 1+n+15+20 {
 			return protocol.ErrBodyLengthInconsistency
 		}
-		t.AuthCode = string(body[1 : 1+t.AuthCodeLen])
-		t.TerminalIMEI = string(body[1+t.AuthCodeLen : 1+t.AuthCodeLen+15])
-		data := body[1+t.AuthCodeLen+15 : 1+t.AuthCodeLen+15+20]
+		t.AuthCode = string(body[1 : 1+n])
+		t.TerminalIMEI = string(body[1+n : 1+n+15])
+		data := body[1+n+15 : 1+n+15+20]
 		if index := bytes.IndexByte(data, 0x00); index != -1 {
 			data = data[:index]
 		}
@@ -97,7 +98,7 @@ func (t *T0x0102) String() string {
 		str += fmt.Sprintf("\t[%02x] 鉴权码长度:[%d]\n", t.AuthCodeLen, t.AuthCodeLen)
 		str += fmt.Sprintf("\t[%x] 鉴权码:[%s]\n", t.AuthCode, t.AuthCode)
 		str += fmt.Sprintf("\t[%015x] 终端IMEI:[%s]\n", t.TerminalIMEI, t.TerminalIMEI)
-		str += fmt.Sprintf("\t[%020x]软件版本:[%s]\n", body[1+t.AuthCodeLen+15:], t.SoftwareVersion)
+		str += fmt.Sprintf("\t[%020x]软件版本:[%s]\n", body[1+int(t.AuthCodeLen)+15:], t.SoftwareVersion)
 	} else {
 		str += fmt.Sprintf("\t鉴权码:[%s]\n", t.AuthCode)
 	}
